@@ -57,10 +57,18 @@ steady_clock::time_point steady_clock::now() noexcept
 struct Val
 {
     static long live;
+    // optional probe, called from the copy constructor (1) and the move assignment (2): the two pieces of user
+    // code the containers run inside their critical sections (harness/excl.cpp parks a thread there)
+    static void (*hook)(int);
     int64_t*    p;
     Val() : p(new int64_t(0)) { ++live; }
     Val(int64_t x) : p(new int64_t(x)) { ++live; }
-    Val(const Val& o) : p(o.p ? new int64_t(*o.p) : nullptr) { ++live; }
+    Val(const Val& o) : p(o.p ? new int64_t(*o.p) : nullptr)
+    {
+        ++live;
+        if (hook)
+            hook(1);
+    }
     Val(Val&& o) noexcept : p(o.p)
     {
         o.p = nullptr;
@@ -83,6 +91,8 @@ struct Val
             p   = o.p;
             o.p = nullptr;
         }
+        if (hook)
+            hook(2);
         return *this;
     }
     // equality comparable, like the value types of the project's own tests (a moved-from Val equals nothing)
@@ -96,6 +106,7 @@ struct Val
     int64_t get() const { return p ? *p : -999; }
 };
 long Val::live = 0;
+void (*Val::hook)(int) = nullptr;
 
 static inline int64_t vget(const int64_t& x)
 {
